@@ -246,9 +246,13 @@ class DocRunner:
                        and Path(n).name not in ("content.xml", "styles.xml", "meta.xml", "settings.xml", "manifest.xml"))
         if not names:
             return
+        added = [n for n in getattr(self, "added", []) if n in names]
+        if op.get("pick") == "added" and added:
+            names = added
         name = names[op.get("i", 0) % len(names)]
         self.doc.del_part(name)
         del self.model[name]
+        self.deleted = getattr(self, "deleted", set()) | {name}
         self.edited.add("META-INF/manifest.xml")
         self.labels.add("del_part")
 
@@ -294,19 +298,50 @@ class DocRunner:
     reuse_buf = None
 
     def op_merge_styles(self, op):
-        from odfdo import Document
+        from odfdo import Document, Element
 
         names = [p.name for p in corpus.sample_files() if p.suffix == ".odt" and p.stat().st_size < 40000]
-        other = Document(str(corpus.samples_dir() / names[op.get("i", 0) % len(names)]))
-        before = {n for n in other.get_parts()} if False else None
+        # sources whose styles reference pictures: two samples, and synthetic ones sharing the add_file contents
+        names += ["example.odp", "background.odp", "synth:0", "synth:1", "synth:2", "synth:3", "synth:0", "synth:1"]
+        name = names[op.get("i", 0) % len(names)]
+        if name.startswith("synth:"):
+            c = int(name[6:])
+            data = PNG + bytes([c])
+            other = Document("drawing" if c % 2 else "text")
+            uri = other.add_file(io.BytesIO(data))
+            other.insert_style(Element.from_tag(
+                f'<draw:fill-image draw:name="Fill{c}" xlink:href="{uri}" xlink:type="simple" xlink:show="embed" xlink:actuate="onLoad"/>'))
+            oparts = {uri: data}
+            pictures = {uri: data}
+            self.labels.add("merge_styles-synthetic-picture")
+        else:
+            path = corpus.samples_dir() / name
+            other = Document(str(path))
+            _i, oparts = odfread.read_zip(path.read_bytes())
+            pictures = {}
+            root = odfread.etree.fromstring(oparts["styles.xml"])
+            hrefs = [e.get(odfread.q("xlink:href")) for e in root.iter(odfread.q("draw:fill-image"))]
+            for mp in root.iter(odfread.q("style:master-page")):
+                hrefs += [e.get(odfread.q("xlink:href")) for e in mp.iter(odfread.q("draw:image"))]
+            for h in hrefs:
+                if h in oparts:
+                    pictures[h] = oparts[h]
+        if pictures:
+            self.labels.add("merge_styles-with-pictures")
+            if any(u in getattr(self, "deleted", ()) for u in pictures):
+                self.labels.add("merge_styles-picture-after-del_part")
         self.doc.merge_styles_from(other)
         self.edited.add("styles.xml")
         self.edited.add("content.xml")
         self.edited.add("META-INF/manifest.xml")
         self.labels.add("merge_styles")
-        # pictures referenced by the merged styles travel with them
-        _i, oparts = odfread.read_zip((corpus.samples_dir() / names[op.get("i", 0) % len(names)]).read_bytes())
-        self.merged_from = oparts
+        # pictures referenced by the merged styles travel with them (same name, the source's bytes)
+        for u, data in pictures.items():
+            self.model[u] = data
+            d = u.rsplit("/", 1)[0] + "/" if "/" in u else None
+            if d and d not in self.model:
+                self.model[d] = b""
+        self.merged_from = dict(self.merged_from or {}, **oparts)
 
     merged_from = None
 
@@ -594,9 +629,9 @@ def make_doc_machine(ctx, prop, extra_ops=()):
         def add_file(self, c, path, frame):
             self.go({"op": "add_file", "c": c, "path": path, "frame": frame})
 
-        @rule(i=st.integers(0, 9))
-        def del_part(self, i):
-            self.go({"op": "del_part", "i": i})
+        @rule(i=st.integers(0, 9), pick=st.sampled_from(["any", "added"]))
+        def del_part(self, i, pick):
+            self.go({"op": "del_part", "i": i, "pick": pick})
 
         @rule(i=st.integers(0, 9), existing=st.booleans())
         def set_part_bin(self, i, existing):
@@ -608,7 +643,7 @@ def make_doc_machine(ctx, prop, extra_ops=()):
             self.go({"op": "set_part_xml", "short": short})
 
         if prop == "C04":
-            @rule(i=st.integers(0, 9))
+            @rule(i=st.integers(0, 40))
             def merge_styles(self, i):
                 self.go({"op": "merge_styles", "i": i})
 
